@@ -30,7 +30,12 @@ def corpus_for(pid):
             continue
         meta = json.load(open(mp)) if os.path.isfile(mp) else {}
         if pid in (meta.get("caught_by") or {}):
-            items.append(("seeded/" + os.path.basename(d), "patch", pp))
+            if meta.get("base"):
+                # a change made on top of a behaviour-preserving refactoring: apply that refactoring first
+                bp = os.path.join(VERIF, "selftest", "equivalents", meta["base"] + ".diff")
+                items.append(("seeded/" + os.path.basename(d), "patches", [bp, pp]))
+            else:
+                items.append(("seeded/" + os.path.basename(d), "patch", pp))
     sys.path.insert(0, os.path.join(VERIF, "selftest"))
     try:
         import mutants
@@ -55,10 +60,11 @@ def replay_one(args):
     tmp = tempfile.mkdtemp(prefix="thorough.", dir="/tmp")
     try:
         subprocess.run(["rsync", "-a", "--exclude", "target", "--exclude", ".git", repo + "/", tmp + "/"], check=True)
-        if kind == "patch":
-            r = subprocess.run(["patch", "-p1", "-s", "-d", tmp, "-i", payload], capture_output=True, text=True)
-            if r.returncode != 0:
-                return (name, "skipped", "patch no longer applies to the current tree")
+        if kind in ("patch", "patches"):
+            for one in (payload if kind == "patches" else [payload]):
+                r = subprocess.run(["patch", "-p1", "-s", "-d", tmp, "-i", one], capture_output=True, text=True)
+                if r.returncode != 0:
+                    return (name, "skipped", "patch no longer applies to the current tree")
         else:
             rel, pairs = payload
             p = os.path.join(tmp, rel)
